@@ -138,6 +138,22 @@ type readBuffers struct {
 	pristineZeros []byte
 }
 
+// newReadBuffers returns the read buffers for message size msize.
+func newReadBuffers(msize uint32) *readBuffers {
+	return &readBuffers{
+		pool: sync.Pool{
+			New: func() interface{} {
+				// These buffers are used for decoding without a payload.
+				// We need to return a pointer to avoid unnecessary allocations
+				// (see https://staticcheck.io/docs/checks#SA6002).
+				b := make([]byte, msize)
+				return &b
+			},
+		},
+		pristineZeros: make([]byte, msize),
+	}
+}
+
 type xattrOp int
 
 const (
